@@ -350,6 +350,9 @@ func (x *Engine) loopHeader(fr *Frame, li *loopInfo, st *State) {
 	if ls != nil && fr.top {
 		env, hash := x.nameEnv(fr, h, nil)
 		for i, c := range ls.Invs {
+			if len(c.Props) > 0 && !hasProp(c.Props, x.curProp) {
+				continue // an invariant tagged {P,...} is stated (checked and assumed) only under those properties
+			}
 			ev := &Eval{x: x, st: st, old: fr.entry, env: env, hash: hash, pkg: fr.fn.Pkg}
 			g := x.safeEvalBool(ev, c)
 			lab := c.Label
@@ -418,6 +421,9 @@ func (x *Engine) loopHeader(fr *Frame, li *loopInfo, st *State) {
 	if ls != nil {
 		env, hash := x.nameEnv(fr, h, nil)
 		for _, c := range ls.Invs {
+			if len(c.Props) > 0 && !hasProp(c.Props, x.curProp) {
+				continue
+			}
 			ev := &Eval{x: x, st: st, old: fr.entry, env: env, hash: hash, pkg: fr.fn.Pkg}
 			x.assume(st, x.safeEvalBool(ev, c))
 		}
@@ -479,6 +485,9 @@ func (x *Engine) backEdge(fr *Frame, from, h *ssa.BasicBlock, st *State) {
 	env, hash := x.nameEnv(fr, h, ov)
 	pos := posOf(x.prog, from.Instrs[len(from.Instrs)-1].Pos())
 	for i, c := range ls.Invs {
+		if len(c.Props) > 0 && !hasProp(c.Props, x.curProp) {
+			continue
+		}
 		ev := &Eval{x: x, st: st, old: fr.entry, env: env, hash: hash, pkg: fr.fn.Pkg}
 		g := x.safeEvalBool(ev, c)
 		lab := c.Label
@@ -679,7 +688,9 @@ func (x *Engine) writeSet(fr *Frame, li *loopInfo) (map[string]bool, map[string]
 			}
 			scanInstr(deferAsCall{i}, depth)
 			return
-		case *ssa.Go, *ssa.Send, *ssa.Select:
+		case *ssa.Send:
+			// no effect on this thread's state (see step.go)
+		case *ssa.Go, *ssa.Select:
 			setAll(ins, 3)
 		case ssa.CallInstruction:
 			cc := i.Common()
@@ -762,6 +773,9 @@ func (x *Engine) writeSet(fr *Frame, li *loopInfo) (map[string]bool, map[string]
 					keys["ghost:clock_ms"], keys["ghost:clock_ns"] = true, true
 					x.regComp("ghost:clock_ms", "Int")
 					x.regComp("ghost:clock_ns", "Int")
+				case "sleep":
+					keys["ghost:slept_ns"] = true
+					x.regComp("ghost:slept_ns", "Int")
 				default:
 					setAll(ins, 7)
 				}
